@@ -27,6 +27,7 @@ import bisect
 import hashlib
 import random
 
+import common
 import gen_oal_action as G
 import oal_sexp
 import prop_C05 as P5
@@ -70,7 +71,9 @@ def setup(ctx):
     m, _ = _rig.fresh()
     _before = _violations(m)
     lean = getattr(ctx, 'lean', None)
-    if lean is not None and lean.driver is not None:
+    if lean is None or lean.driver is None:
+        raise common.HarnessError('C06 needs the Lean driver (recipe table and schema demands are exported by it)')
+    if True:
         import sexp
         table = sexp.loads(lean.run_driver(['(c06-recipes)'])[0])
         _recipes = {}
@@ -89,7 +92,8 @@ def _schema_check(m, fail):
     every instance of a created class has EXACTLY one partner on each unconditional single end, AT MOST one on each
     conditional single end, every supertype instance exactly one subtype instance, identifiers non-null and unique"""
     if _schema is None:
-        return {}
+        raise common.HarnessError('the schema demands (c06-schema) were not fetched from the Lean driver: the two-sided '
+                                  'end-count / subtype / identifier check cannot run')
     by_kind = {}
     for ass in m.associations:
         n = int(ass.rel_id[1:])
@@ -230,6 +234,7 @@ def generate(ctx):
         lay = [r.choice(LAYOUTS) for _ in homes]
         yield {'multi': True, 'home': 'function', 'prog': g.program(), 'style': r.randint(0, 2 ** 30),
                'vary': r.random() < 0.5, 'homes': homes, 'layouts': lay, 'poison': poison, 'poison_home': poison_home,
+               'gstats': dict(g.stats),
                'trail': [r.choice(['', ' ', '\n', '\n\n']) for _ in homes],
                'via_model': poison is None and r.random() < 0.6}
     for c in P5.generate(ctx, n_quick=1500, multi=False):
@@ -625,8 +630,8 @@ def run_multi(case):
             fail('integrity-added', 'prebuilding the actions added %d violation(s)' % added)
     return {'obs': Sym('multi'), 'd_fail': fails, 'nontrivial': nst >= 3,
             'key': 'multi:' + hashlib.sha1(repr((sorted(texts.items()), case.get('poison'))).encode()).hexdigest()[:16],
-            'stats': {'multi_action_models': 1, 'multi_actions': len(hns), 'rejected_action_first': int(poisoned),
-                      'statements': nst}}
+            'stats': dict({'multi_action_models': 1, 'multi_actions': len(hns), 'rejected_action_first': int(poisoned),
+                           'statements': nst}, **dict(('gen_' + k, v) for k, v in (case.get('gstats') or {}).items()))}
 
 
 def run_impl(case):
@@ -830,6 +835,7 @@ def run_impl(case):
     misses, hits = _recipe_misses(m)
     stats.update(hits)
     stats.update(stats_schema)
+    P5._gen_stats(case, text, stats)
     var_obs = []
     for v_var in m.select_many('V_VAR'):
         if v_var.Name != 'self':
